@@ -331,6 +331,25 @@ fn run_case(seed: u64, idx: u64, tier: Tier, out: &mut CaseOut) {
             let doc = gen_doc(&mut rng, &p);
             let mut bytes = Vec::new();
             let sheet = super::cssgen::soup_or_valid(&mut rng);
+            // legacy presentational attributes with hostile values
+            if rng.chance(1, 2) {
+                const VALS: [&str; 14] = [
+                    "red", "#123", "00aabb", "abcd€", "12345é", "0世界", "ＡＢＣＤＥＦ", "", "######",
+                    "rgb(1,2", "0123456789abcdef", "é", "00aab€", "\u{301}\u{301}\u{301}\u{301}\u{301}\u{301}",
+                ];
+                let a = if rng.chance(1, 2) { "color" } else { "bgcolor" };
+                bytes.extend_from_slice(
+                    format!(
+                        "<font {}=\"{}\">x</font><table {}=\"{}\"><tr><td bgcolor=\"{}\">y</td></tr></table>",
+                        a,
+                        rng.pick(&VALS),
+                        a,
+                        rng.pick(&VALS),
+                        rng.pick(&VALS)
+                    )
+                    .as_bytes(),
+                );
+            }
             bytes.extend_from_slice(b"<style>");
             bytes.extend_from_slice(sheet.as_bytes());
             bytes.extend_from_slice(b"</style>");
